@@ -137,7 +137,7 @@ func resolve(t types.Type, subst map[*types.TypeParam]types.Type) types.Type {
 
 var opaquePkgs = map[string]bool{
 	"sync": true, "sync/atomic": true, "github.com/rs/zerolog": true, "context": true,
-	"go.opentelemetry.io/otel/metric": true, "regexp": true, "net/http": true, "os": true,
+	"go.opentelemetry.io/otel/metric": true, "regexp": true, "net/http": true, "os": true, "github.com/valyala/fastjson": true,
 }
 
 // TypeOf maps a Go type to the verifier's type.
